@@ -20,6 +20,8 @@ type PObj struct {
 	Near     string   `json:"near,omitempty"` // target key of a non-constant near
 	Attrs    string   `json:"attrs"`          // every other attribute (JSON), label blanked
 	Children []string `json:"-"`
+	AJSON    string   `json:"-"` // the attributes JSON alone (Attrs may carry class / sql_table suffixes)
+	Imported bool     `json:"-"` // some reference to it lies in another file
 	idx      int
 }
 
@@ -32,6 +34,9 @@ type PEdge struct {
 	Index    int    `json:"index"`
 	Label    string `json:"label"`
 	Attrs    string `json:"attrs"` // attributes + arrowheads (JSON), label blanked
+	AJSON    string `json:"-"`     // attributes JSON alone
+	SH, DH   string `json:"-"`     // arrowhead attributes JSON
+	SHL, DHL string `json:"-"`     // arrowhead labels
 	idx      int
 }
 
@@ -72,6 +77,12 @@ func Project(g *d2graph.Graph) *PBoard {
 			po.Parent = ob.Parent.AbsID()
 		}
 		po.Attrs, po.Near = attrsNoLabel(&ob.Attributes)
+		po.AJSON = po.Attrs
+		for _, ref := range ob.References {
+			if ref.Key != nil && ref.Key.Range.Path != "index.d2" {
+				po.Imported = true
+			}
+		}
 		if ob.Label.Value == ob.IDVal {
 			po.Implicit = true
 		} else {
@@ -110,6 +121,7 @@ func Project(g *d2graph.Graph) *PBoard {
 			dhl = e.DstArrowhead.Label.Value
 		}
 		pe.Attrs = fmt.Sprintf("%s|sh:%s:%q|dh:%s:%q", a, sh, shl, dh, dhl)
+		pe.AJSON, pe.SH, pe.DH, pe.SHL, pe.DHL = a, sh, dh, shl, dhl
 		pb.Edges = append(pb.Edges, pe)
 		pb.EBy[pe.Abs] = pe
 	}
@@ -155,4 +167,61 @@ func Boards(g *d2graph.Graph) []BoardRef {
 	}
 	rec(g, nil, "root")
 	return out
+}
+
+// diffBoards names the first difference between two projections of the same board, element by element
+// (matched by AbsID): what = kind of difference (part of failure classes), detail = for humans.
+func diffBoards(a, b *PBoard) (what, detail string) {
+	for _, o := range a.Objs {
+		q, ok := b.By[o.Abs]
+		if !ok {
+			return "object-removed", fmt.Sprintf("object %s (label %q) is gone", o.Abs, o.Label)
+		}
+		switch {
+		case o.Label != q.Label || o.Implicit != q.Implicit:
+			return "object-label-changed", fmt.Sprintf("object %s label %q -> %q", o.Abs, o.Label, q.Label)
+		case o.Near != q.Near:
+			return "object-near-changed", fmt.Sprintf("object %s near %q -> %q", o.Abs, o.Near, q.Near)
+		case o.Attrs != q.Attrs:
+			return "object-attributes-changed", fmt.Sprintf("object %s attributes\n  %s\n  ->\n  %s", o.Abs, o.Attrs, q.Attrs)
+		}
+	}
+	for _, q := range b.Objs {
+		if _, ok := a.By[q.Abs]; !ok {
+			return "object-added", fmt.Sprintf("object %s (label %q) appeared", q.Abs, q.Label)
+		}
+	}
+	for _, e := range a.Edges {
+		f, ok := b.EBy[e.Abs]
+		if !ok {
+			return "connection-removed", fmt.Sprintf("connection %s (label %q) is gone", e.Abs, e.Label)
+		}
+		switch {
+		case e.Label != f.Label:
+			return "connection-label-changed", fmt.Sprintf("connection %s label %q -> %q", e.Abs, e.Label, f.Label)
+		case e.Attrs != f.Attrs:
+			return "connection-attributes-changed", fmt.Sprintf("connection %s attributes\n  %s\n  ->\n  %s", e.Abs, e.Attrs, f.Attrs)
+		}
+	}
+	for _, f := range b.Edges {
+		if _, ok := a.EBy[f.Abs]; !ok {
+			return "connection-added", fmt.Sprintf("connection %s (label %q) appeared", f.Abs, f.Label)
+		}
+	}
+	return "", ""
+}
+
+func diffBoardGraphs(a, b *d2graph.Graph) (what, detail string) {
+	if what, detail = diffBoards(Project(a), Project(b)); what != "" {
+		return
+	}
+	ra, _ := attrsNoLabel(&a.Root.Attributes)
+	rb, _ := attrsNoLabel(&b.Root.Attributes)
+	if ra != rb || a.Root.Label.Value != b.Root.Label.Value {
+		return "board-attributes-changed", fmt.Sprintf("root attributes %s (label %q) -> %s (label %q)", ra, a.Root.Label.Value, rb, b.Root.Label.Value)
+	}
+	if a.IsFolderOnly != b.IsFolderOnly {
+		return "board-folder-flag-changed", fmt.Sprintf("isFolderOnly %v -> %v", a.IsFolderOnly, b.IsFolderOnly)
+	}
+	return "", ""
 }
